@@ -433,6 +433,7 @@ _dec = []
 _reg_tab = {}
 def _pop():
     return _dec.pop(0) if _dec else 0
+_cont = [False]          # C03 mode: a failed read is logged and the execution goes on
 def _r(site, name, thunk):
     if _dead[0]:
         raise _Stop()
@@ -440,6 +441,8 @@ def _r(site, name, thunk):
         v = thunk()
     except NameError:
         _log.append((site, None))
+        if _cont[0]:
+            return None
         _dead[0] = True
         raise _Stop()
     if isinstance(v, _V):
